@@ -18,7 +18,7 @@ Import ListNotations.
 Section Chk.
 Variable S : StarRing.
 Variable absS : S -> Qc.         (* |a| (real) or |re|+|im| (complex) *)
-Variable posb : S -> bool.       (* epsI > 0 *)
+Variable nzb : S -> bool.        (* epsI != 0 *)
 Variable eqS : S -> S -> bool.   (* exact equality *)
 Notation vec := (list S).
 Notation mat := (list (list S)).
@@ -40,7 +40,6 @@ Definition wfPb (P : lsq S) : bool :=
   match p_W S P with Some W => wfMb' m m W | None => true end &&
   forallb (fun t => forallb (fun r => Nat.eqb (length r) n) (g_R S t) && Nat.eqb (length (g_d S t)) (length (g_R S t))) (p_regs S P) &&
   forallb (fun t => wfMb' n n (h_N S t)) (p_nregs S P).
-Definition epsI_ok (P : lsq S) : bool := posb (p_epsI S P) || eqS (sq S (p_epsI S P)) (r0 S).
 
 Record case := { c_id : nat; c_tolm : Qc; c_tolx : Qc;
   c_ne : lsq S; c_ne_N : option mat; c_ne_y : option vec; c_ne_xs : list vec;
@@ -65,19 +64,18 @@ Definition check (c : case) : list nat :=
   flag (forallb (resid_ok (c_tolx c) Nr br) (c_ri_xs c)) 7 ++
   flag (forallb (resid_ok (c_tolx c) (Nmat S Pp) (rhs S Pp)) (c_pi_xs c)) 8 ++
   flag (forallb (fun p => vcl (c_tolx c) (fst p) (snd p) && vcl (c_tolx c) (snd p) (fst p)) (c_agree c)) 9 ++
-  flag (negb (epsI_ok Pn) ||
-        (all2 (all2 eqS) (op_normal_dense S posb Pn) N && all2 eqS (y_normal_code S Pn) b)) 10.
+  flag (all2 (all2 eqS) (op_normal_dense S nzb Pn) N && all2 eqS (y_normal_code S Pn) b) 10.
 End Chk.
 
 Definition absG (a : G) : Qc := (Qcabs' (fst a) + Qcabs' (snd a))%Qc.
-Definition posQ (a : Qc) : bool := negb (Qcleb a 0%Qc).
-Definition posG (a : G) : bool := posQ (fst a).
 Definition eqQ (a b : Qc) : bool := Qcleb a b && Qcleb b a.
 Definition eqG (a b : G) : bool := eqQ (fst a) (fst b) && eqQ (snd a) (snd b).
+Definition nzQ (a : Qc) : bool := negb (eqQ a 0%Qc).
+Definition nzG (a : G) : bool := negb (eqG a g0).
 Definition caseR := case QcS.
 Definition caseC := case GS.
-Definition checkR12 : caseR -> list nat := check QcS Qcabs' posQ eqQ.
-Definition checkC12 : caseC -> list nat := check GS absG posG eqG.
+Definition checkR12 : caseR -> list nat := check QcS Qcabs' nzQ eqQ.
+Definition checkC12 : caseC -> list nat := check GS absG nzG eqG.
 Definition run12 (rs : list caseR) (cs : list caseC) : list (nat * list nat) :=
   failing (c_id QcS) checkR12 rs ++ failing (c_id GS) checkC12 cs.
 (* real / complex embeddings used by the generated files *)
@@ -91,3 +89,9 @@ Proof. unfold eqQ. intros H. apply andb_prop in H. destruct H as [H1 H2].
 Lemma all2_eqQ_eq u v : all2 eqQ u v = true -> u = v.
 Proof. revert v; induction u as [|a u IH]; intros [|b v] H; simpl in *; try discriminate; auto.
   apply andb_prop in H. destruct H as [H1 H2]. f_equal; [apply eqQ_eq; auto | apply IH; auto]. Qed.
+Lemma nzQ_sound a : nzQ a = false -> a = 0%Qc.
+Proof. unfold nzQ. intros H. apply eqQ_eq. destruct (eqQ a 0%Qc); auto; discriminate. Qed.
+Lemma nzG_sound a : nzG a = false -> a = g0.
+Proof. unfold nzG, eqG. intros H. destruct a as [x y]; simpl in *.
+  destruct (eqQ x 0%Qc) eqn:E1; destruct (eqQ y 0%Qc) eqn:E2; simpl in H; try discriminate.
+  apply eqQ_eq in E1; apply eqQ_eq in E2. subst; reflexivity. Qed.
